@@ -911,6 +911,9 @@ class XsdElement(XsdComponent, ParticleMixin,
             except (XMLSchemaValueError, XMLSchemaTypeError) as err:
                 context.validation_error(validation, self, err, obj)
             else:
+                if isinstance(identity, XsdKeyref) and None in fields:
+                    continue  # a key reference is checked only if all its fields are present
+
                 if any(x is not None for x in fields) or nilled:
                     try:
                         counter.increase(fields)
